@@ -125,7 +125,32 @@ func runC01(args []string) {
 			}
 		}
 		ops := make([]catchOp, 0)
+		// thorough tier: the Gray-code walk is also compared with the MODEL, state by state, in shards of 512 steps
+		// (each shard starts with a synchronise to the walk's current set, which is a no-op for the implementation and
+		// builds the model's state for that set: by C01 they must agree from there on); all 2^n states for n <= 13,
+		// the first 8192 beyond
+		modelLimit := 0
+		if tier == "thorough" {
+			modelLimit = limit
+			if modelLimit > 8192 {
+				modelLimit = 8192
+			}
+		}
+		var shardOps []catchOp
+		var shardObs []J
+		flushShard := func() {
+			if len(shardOps) > 1 {
+				emit(J{"kind": "case", "dataset": ds, "ops": shardOps, "obs": shardObs, "final_attrs": g.allAttrs()})
+				stats["gray_model_shards"]++
+			}
+			shardOps, shardObs = nil, nil
+		}
 		for k := 1; k < limit; k++ {
+			if k < modelLimit && len(shardOps) == 0 {
+				cur := g.obs()
+				shardOps = append(shardOps, catchOp{Op: "SYNC", Bits: cur["active"].([]int)})
+				shardObs = append(shardObs, cur)
+			}
 			bit := 0
 			for (k>>uint(bit))&1 == 0 {
 				bit++
@@ -140,6 +165,14 @@ func runC01(args []string) {
 				ops = ops[len(ops)-40:]
 			}
 			ob := g.obs()
+			if k < modelLimit {
+				shardOps = append(shardOps, o)
+				shardObs = append(shardObs, ob)
+				stats["gray_model_steps"]++
+				if len(shardOps) > 512 || k == modelLimit-1 {
+					flushShard()
+				}
+			}
 			f := g.freshWith(ob["active"].([]int))
 			if !catchSameObs(ob, f.obs()) {
 				failures++
